@@ -186,6 +186,11 @@ Proof. intros. eapply doc_same_fields_l; try eassumption. apply doc_same_refl. Q
 
 Lemma doc_same_set_key a k : doc_same (set_key a k) a.
 Proof. apply doc_same_fields; destruct a; reflexivity. Qed.
+Lemma doc_same_unnamed a : doc_same (unnamed a) a.
+Proof.
+  apply doc_same_fields; try (destruct a; reflexivity).
+  destruct a as [ty vs vi vd key cs]. unfold unnamed. cbn [set_ty set_key n_ty]. apply tymask_ldiff. reflexivity.
+Qed.
 Lemma doc_same_with_key a k : doc_same (with_key a k) a.
 Proof. apply doc_same_fields; destruct a; reflexivity. Qed.
 Lemma doc_same_keyed a k : doc_same (keyed a k) a.
